@@ -7,9 +7,28 @@
 From Coq Require Import String.
 From Coq Require Import List ZArith NArith Bool Arith Lia Sorted.
 Import ListNotations.
-Require Import PyLib PyLib2 Str Rx TextModel SortProofs G_fn_sir4 RefJun RefValue RefWord RefWordsLine.
-Require RefItem.
+Require Import PyLib PyLib2 Str Rx TextModel SortProofs G_fn_sir4 RefJun RefValue RefWord.
 Notation vstr := RefJun.vstr.
+
+(* local copies of two helpers (so that this file does not depend on the refinement of unrelated functions) *)
+Definition ascii (s : str) : Prop := Forall (fun c => c < 128)%N s.
+Lemma py_lower_vstr w : ascii w -> py_lower (vstr w) = Normal (vstr (lower_str w)).
+Proof.
+  intro H. unfold py_lower, RefJun.vstr.
+  assert (A : ascii_only (map Z.of_N w) = true).
+  { unfold ascii_only. apply forallb_forall. intros z Hz. apply in_map_iff in Hz as (c & <- & Hc). unfold ascii in H. rewrite Forall_forall in H. specialize (H c Hc). apply Z.ltb_lt. lia. }
+  rewrite A. f_equal. f_equal. unfold lower_str. rewrite !map_map. apply map_ext. intro c. unfold lower_ascii.
+  replace (65 <=? Z.of_N c)%Z with (65 <=? c)%N by (destruct (N.leb_spec 65 c); [symmetry; apply Z.leb_le|symmetry; apply Z.leb_gt]; lia).
+  replace (Z.of_N c <=? 90)%Z with (c <=? 90)%N by (destruct (N.leb_spec c 90); [symmetry; apply Z.leb_le|symmetry; apply Z.leb_gt]; lia).
+  destruct ((65 <=? c)%N && (c <=? 90)%N); lia.
+Qed.
+Lemma join_strs_vstr sep : forall l, join_strs (map Z.of_N sep) (map vstr l) = Some (map Z.of_N (join sep l)).
+Proof.
+  induction l as [|x [|y l] IH]; [reflexivity|reflexivity|].
+  cbn [map join_strs join] in *. unfold RefJun.vstr in *. rewrite IH. now rewrite !map_app.
+Qed.
+Lemma py_join_vstr sep l : py_join (vstr sep) (VList (map vstr l)) = Normal (vstr (join sep l)).
+Proof. unfold py_join, RefJun.vstr at 1. cbn [py_iter PyLib.bind]. now rewrite join_strs_vstr. Qed.
 
 (* ---- the library's list-of-code-points functions are the model's ---- *)
 Lemma existsb_vstr (w : str) (acc : list str) : existsb (veq (vstr w)) (map vstr acc) = mem_str w acc.
@@ -120,7 +139,7 @@ Proof.
   cbn [py_iter PyLib.bind].
   pose proof (lower_loop reserved [] Hr) as F; cbn [map app] in F; rewrite F; clear F. cbn [PyLib.bind app]. rewrite py_dedup_vstr. cbn [PyLib.bind py_setattr dict_set].
   pose proof (lower_loop words [] Hw) as F; cbn [map app] in F; rewrite F; clear F. cbn [PyLib.bind app]. rewrite py_dedup_vstr. cbn [PyLib.bind].
-  rewrite py_sorted_vstr. cbn [PyLib.bind]. change (VStr [124%Z]) with (vstr [124%N]). rewrite RefItem.py_join_vstr. cbn [PyLib.bind].
+  rewrite py_sorted_vstr. cbn [PyLib.bind]. change (VStr [124%Z]) with (vstr [124%N]). rewrite py_join_vstr. cbn [PyLib.bind].
   rewrite format_paren. cbn [PyLib.bind]. unfold word_pattern_text, sort_words in Hrx. rewrite Hrx. cbn [PyLib.bind call unpack2 py_iter].
   set (rwl := VList (map vstr (dedup (map lower_str reserved)))).
   set (wsl := VList (map vstr (dedup (map lower_str words)))).
